@@ -2457,15 +2457,17 @@ func (d *Document) parseRun(decoder *xml.Decoder, startElement xml.StartElement)
 				}
 			case "t":
 				// 解析文本
-				space := getAttributeValue(t.Attr, "space")
-				run.Text.Space = space
+				// 一个运行可以包含多个 w:t（中间夹着 w:tab、w:br 等），文本必须累加而不是覆盖
+				if space := getAttributeValue(t.Attr, "space"); space != "" {
+					run.Text.Space = space
+				}
 
 				// 读取文本内容
 				content, err := d.readElementText(decoder, "t")
 				if err != nil {
 					return nil, err
 				}
-				run.Text.Content = content
+				run.Text.Content += content
 			case "drawing":
 				// 解析绘图元素（图片等）
 				drawing, err := d.parseDrawingElement(decoder, t)
